@@ -56,6 +56,23 @@ class MutRef(tuple):
         self.env[self.name] = ("list", tuple(cur[:self.a] + list(part) + cur[self.z:]))
 
 
+class EntryRef(tuple):
+    """the entry bound by `match map.entry(k) { Entry::Vacant(e) => .., Entry::Occupied(e) => .. }`: a ctor value
+    (VacantEntry(key) / OccupiedEntry(key, value)) that remembers which map it belongs to, so `e.insert(v)` lands there"""
+    def __new__(cls, ev, place, env, key, val):
+        self = tuple.__new__(cls, ("ctor", "OccupiedEntry", (key, val)) if val is not None else ("ctor", "VacantEntry", (key,)))
+        self.ev, self.place, self.env, self.key, self.val = ev, place, env, key, val
+        return self
+
+    def write(self, newv, env=None):
+        self.env = env if env is not None else self.env      # the innermost scope: enclosing blocks copy their variables back on exit
+        cur = self.ev.ex(self.place, self.env)
+        items = [x for x in (cur[1] if cur[0] == "list" else ()) if not (x[0] == "tuple" and len(x[1]) == 2 and x[1][0] == self.key)]
+        if newv is not None:
+            items.append(T(self.key, newv))
+        self.ev._place_store(self.place, L(*items), self.env)
+
+
 class _Rev:
     """sort key wrapped in std::cmp::Reverse"""
     def __init__(self, k):
@@ -433,7 +450,10 @@ class AEval(dtable.Eval):
             if it[0] != "list":
                 raise Unknown("for over non list")
             store = None      # (place node, "elems" | "values") when the loop walks a collection by mutable reference
-            if consume is None:
+            mref = it if isinstance(it, MutRef) and consume is None else None      # `for x in it` with `it = v.iter_mut()` (a view of v)
+            if mref is not None:
+                store = (None, "mutref")
+            if consume is None and mref is None:
                 sn = src
                 while is_node(sn) and sn["k"] == "Paren":
                     sn = sn["expr"]
@@ -476,6 +496,10 @@ class AEval(dtable.Eval):
                             env[kk] = e2[kk]
                     if store is not None and b and any(e2.get(k2) != b[k2] for k2 in b):
                         new_elems[idx] = self._rebuild(e["pat"], x, e2)
+            if mref is not None:
+                if list(new_elems) != list(it[1]) and len(new_elems) == len(it[1]):
+                    MutRef(env, mref.name, mref.a, mref.z).store(new_elems) if mref.name in env else mref.store(new_elems)
+                return UNIT
             if store is not None and list(new_elems) != list(it[1]) and len(new_elems) == len(it[1]):
                 cur = self.ex(store[0], env)
                 if cur[0] == "list" and len(cur[1]) == len(new_elems):
@@ -867,6 +891,43 @@ class AEval(dtable.Eval):
             pass
 
     def match(self, m, env):
+        sc = m["scrutinee"]
+        if is_node(sc) and sc["k"] == "MethodCall" and sc["method"] == "entry" and len(sc["args"]) == 1 and "entry" not in self.builtins \
+                and any(re.search(r"(^|::)(Vacant|Occupied)$", (a["pat"].get("path") or "")) for a in m["arms"] if a["pat"].get("k") == "PTupleStruct"):
+            pl = self._mut_place(sc["receiver"], env)
+            cur = self.ex(pl, env) if pl is not None else None
+            if cur == DEFAULT:
+                cur = L()
+            if pl is not None and cur[0] == "list":
+                k = self.ex(sc["args"][0], env)
+                hit = [x for x in cur[1] if x[0] == "tuple" and len(x[1]) == 2 and x[1][0] == k]
+                ent = EntryRef(self, pl, env, k, hit[0][1][1] if hit else None)
+                for a in m["arms"]:
+                    p = a["pat"]
+                    which = (p.get("path") or "").split("::")[-1] if p.get("k") == "PTupleStruct" else None
+                    if which in ("Vacant", "Occupied") and (which == "Occupied") != bool(hit):
+                        continue
+                    e2 = dict(env)
+                    if which in ("Vacant", "Occupied"):
+                        b = self.pat(p["elems"][0], ent, e2) if p.get("elems") else {}
+                        if b is None:
+                            continue
+                        for kk in list(b):
+                            if b[kk] == tuple(ent):
+                                b[kk] = ent
+                    else:
+                        b = self.pat(p, C("Entry", k, C("Some", hit[0][1][1]) if hit else C("None")), e2)
+                        if b is None:
+                            continue
+                    e2.update(b)
+                    ent.env = e2
+                    try:
+                        return self.ex(a["body"], e2)
+                    finally:
+                        for kk in env:
+                            if kk not in b and kk in e2:
+                                env[kk] = e2[kk]
+                raise Unknown("no arm matches the map entry")
         v = self.ex(m["scrutinee"], env)
         for a in m["arms"]:
             b = self.pat(a["pat"], v, env)
@@ -1126,6 +1187,14 @@ class AEval(dtable.Eval):
                 and env.get(rnode["path"]) == DEFAULT and m not in self.builtins and m not in self.mut_builtins:
             env[rnode["path"]] = L()        # the default value of a collection type is the empty collection
         # stateful iterator: `it.next()` on a variable holding a list
+        if m == "next" and not e["args"] and is_node(rnode) and rnode["k"] == "Path" and isinstance(env.get(rnode["path"]), MutRef):
+            ref = env[rnode["path"]]
+            src_env = env if ref.name in env else ref.env
+            cur = src_env[ref.name][1]
+            if ref.a >= min(ref.z, len(cur)):
+                return C("None")
+            env[rnode["path"]] = MutRef(src_env, ref.name, ref.a + 1, ref.z)
+            return C("Some", cur[ref.a])
         if m == "next" and not e["args"] and is_node(rnode) and rnode["k"] == "Path" and rnode["path"] in env and env[rnode["path"]][0] == "list":
             lst = env[rnode["path"]][1]
             if not lst:
@@ -1228,7 +1297,9 @@ class AEval(dtable.Eval):
             if m in ("push", "push_back") and len(vals) == 1:
                 cur.append(vals[0])
             elif m == "insert" and len(vals) == 2:
-                cur = [x for x in cur if not (x[0] == "tuple" and len(x[1]) == 2 and x[1][0] == vals[0])] + [T(vals[0], vals[1])]
+                newl, res = self._collection_op(m, cur, vals)       # Vec::insert(i, x) / map.insert(k, v) -> the previous value
+                env[rnode["path"]] = ("list", tuple(newl))
+                return res
             elif m == "insert" and len(vals) == 1:
                 was_new = vals[0] not in cur
                 if was_new:
@@ -1311,6 +1382,24 @@ class AEval(dtable.Eval):
                     return cur
         r = self.ex(rnode, env)
         args = [self.ex(a, env) for a in e["args"]]
+        if isinstance(r, EntryRef) and m not in self.builtins:
+            if m == "key" and not args:
+                return r.key
+            if m in ("get", "get_mut", "into_mut") and not args and r.val is not None:
+                return r.val
+            if m == "insert" and len(args) == 1:
+                old_ = r.val
+                r.write(args[0], env)
+                return args[0] if old_ is None else old_
+            if m in ("insert_entry",) and len(args) == 1:
+                r.write(args[0], env)
+                return r
+            if m in ("remove", "remove_entry") and not args and r.val is not None:
+                r.write(None, env)
+                return r.val if m == "remove" else T(r.key, r.val)
+            if m == "into_key" and not args:
+                return r.key
+            raise Unknown("map entry method " + m)
         if r == DEFAULT and m in ("iter", "into_iter", "iter_mut", "is_empty", "len", "first", "last", "get", "contains", "contains_key", "keys", "values"):
             r = L()   # the default of a slice / Vec / map is the empty collection
         if m in self.mut_builtins:
@@ -1318,7 +1407,16 @@ class AEval(dtable.Eval):
             self._assign_place(rnode, newr, env)
             return res
         if m in self.builtins:
-            return self.builtins[m](r, args)
+            res = self.builtins[m](r, args)
+            if isinstance(res, tuple) and res and res[0] == "mutargs":
+                # a modelled callee that writes through `&mut` arguments: {argument index: new value}
+                for idx, nv in res[2].items():
+                    tgt = e["args"][idx]
+                    while is_node(tgt) and tgt["k"] in ("Ref", "Paren", "Unary"):
+                        tgt = tgt["expr"]
+                    self._assign_place(tgt, nv, env)
+                return res[1]
+            return res
         if r[0] == "str":
             v = self._str_method(m, r[1], args, e)
             if v is not None:
@@ -1348,6 +1446,10 @@ class AEval(dtable.Eval):
             return C("Ok", L(*[x[2][0] for x in r[1]]))
         if r[0] in ("int",) and m in ("is_finite",) and not args:
             return B(True)
+        if r[0] == "atom" and r[1].startswith("float:") and m in ("is_finite", "is_nan", "is_infinite") and not args:
+            x = r[1][6:]
+            fin = x not in ("inf", "-inf", "nan")
+            return B({"is_finite": fin, "is_nan": x == "nan", "is_infinite": x in ("inf", "-inf")}[m])
         if m == "to_string" and not args and r[0] == "ctor" and getattr(self, "display", None) is not None and m not in self.funcs:
             return self.display(r)
         if m == "to_string" and not args and r[0] in ("int", "bool"):
@@ -1370,6 +1472,10 @@ class AEval(dtable.Eval):
             if m == "values" and r[0] == "list":
                 return L(*[x[1][1] if x[0] == "tuple" and len(x[1]) == 2 else x for x in r[1]])
             return r
+        if r[0] == "list" and m in ("capacity",) and not args:
+            return I(len(r[1]))
+        if r[0] in ("list", "str") and m in ("reserve", "reserve_exact", "shrink_to_fit", "shrink_to", "try_reserve") and m not in self.builtins:
+            return UNIT if m != "try_reserve" else C("Ok", UNIT)
         if r[0] == "list":
             xs = list(r[1])
             if m == "any":
@@ -1750,6 +1856,20 @@ class AEval(dtable.Eval):
             if m == "strip_suffix":
                 return C("Some", ("str", t[:len(t) - len(sa)])) if t.endswith(sa) else C("None")
         if m == "parse" and not args:
+            ty = re.sub(r"\s+", "", (e or {}).get("turbofish") or "") if isinstance(e, dict) else ""
+            ty = ty.strip("<>:")
+            if ty in ("f64", "f32"):
+                try:
+                    fv = float(t) if re.match(r"^[+-]?(\d+\.?\d*([eE][+-]?\d+)?|\.\d+([eE][+-]?\d+)?|inf|infinity|nan)$", t, re.I) else None
+                except ValueError:
+                    fv = None
+                return C("Ok", A("float:%r" % fv)) if fv is not None else C("Err", A("parse-error"))
+            if ty[:1] == "u" and ty[1:] in ("8", "16", "32", "64", "128", "size"):
+                bits = {"size": 64}.get(ty[1:]) or int(ty[1:])
+                return C("Ok", I(int(t))) if re.match(r"^\+?\d+$", t) and int(t) < 2 ** bits else C("Err", A("parse-error"))
+            if ty[:1] == "i" and ty[1:] in ("8", "16", "32", "64", "128", "size"):
+                bits = {"size": 64}.get(ty[1:]) or int(ty[1:])
+                return C("Ok", I(int(t))) if re.match(r"^[+-]?\d+$", t) and -2 ** (bits - 1) <= int(t) < 2 ** (bits - 1) else C("Err", A("parse-error"))
             if re.match(r"^[+-]?\d+$", t):
                 return C("Ok", I(int(t)))
             return C("Err", A("parse-error"))
@@ -1844,6 +1964,12 @@ class AEval(dtable.Eval):
                     if "init" not in st:
                         continue
                     v = self.ex(st["init"], env)
+                    ini = st["init"]
+                    while is_node(ini) and ini["k"] == "Paren":
+                        ini = ini["expr"]
+                    if is_node(ini) and ini["k"] == "MethodCall" and ini["method"] == "iter_mut" and not ini["args"] and is_node(ini["receiver"]) and ini["receiver"]["k"] == "Path" \
+                            and ini["receiver"]["path"] in env and env[ini["receiver"]["path"]][0] == "list" and not isinstance(env[ini["receiver"]["path"]], MutRef) and "iter_mut" not in self.builtins:
+                        v = MutRef(env, ini["receiver"]["path"], 0, None)
                     bd = self.pat(st["pat"], v, env)
                     if bd is None:
                         if "else" in st:
@@ -1864,6 +1990,17 @@ class AEval(dtable.Eval):
                         while is_node(init) and init["k"] == "Paren":
                             init = init["expr"]
                         by_ref = is_node(init) and ((init["k"] == "Ref" and init.get("mut")) or init["k"] in ("MethodCall", "Try"))
+                        nx = init
+                        while is_node(nx) and nx["k"] == "MethodCall" and nx["method"] in ("unwrap", "expect", "unwrap_at", "unwrap_or_else"):
+                            nx = nx["receiver"]
+                        if is_node(nx) and nx["k"] == "MethodCall" and nx["method"] == "next" and is_node(nx["receiver"]) and nx["receiver"]["k"] == "Path" \
+                                and isinstance(env.get(nx["receiver"]["path"]), MutRef) and env[nx["receiver"]["path"]].a >= 1:
+                            ref = env[nx["receiver"]["path"]]
+                            # the element just yielded by a mutable iterator over `v`: a view of v[a - 1]
+                            tgt = {"k": "MethodCall", "method": "unwrap", "args": [], "line": st.get("line", 0),
+                                   "receiver": {"k": "MethodCall", "method": "get_mut", "line": st.get("line", 0), "receiver": {"k": "Path", "path": ref.name, "line": st.get("line", 0)},
+                                                "args": [{"k": "Lit", "text": str(ref.a - 1), "int": ref.a - 1, "line": st.get("line", 0)}]}}
+                            by_ref = True
                         if tgt is not None and by_ref and tgt["k"] != "Path":
                             aliases[pp["name"]] = (tgt, v)
                         else:
